@@ -55,6 +55,11 @@ def run(tier):
             opts.pop("F_CFI")
             configs.append(("libgen%d" % nlib, opts, [], cs, lib["class"]))
             nlib += 1
+        # the wide member of the domain (specs/LibGenPairs.tla): every pairing of two parameter rows, every result
+        # row with every parameter row
+        wide = libgen.wide_library()
+        configs.append(("wide", {}, [], libgen.cases_of(wide, {k for k, r in K.ROWS.items() if "c_decl" in r},
+                                                        {k for k, r in K.RESULTS.items() if "c_decl" in r or r["ty"] == "none"}), True))
         traces, labels = [], []
         with common.scratch("c02-") as base:
             def one(cfg):
